@@ -73,6 +73,8 @@ CaseResult run_static(const RunCtx &ctx, TapeReader &t, unsigned size_hint) {
     o.xprocs = ctx.x("xprocs");
     std::vector<K> keys = gen_keys<K>(t, o, meta);
     const bool nested = t.chance(1, 10); // construct from inside a caller's OpenMP parallel region
+    // a second index of the same instantiation, built later over every other key, is alive during the queries and queried itself
+    const bool bystander = t.chance(1, 6) && keys.size() <= (size_t(1) << 20);
     const size_t n = keys.size();
     const bool c01 = ctx.prop == "C01", c02 = ctx.prop == "C02", c07 = ctx.prop == "C07";
     const bool mem = ctx.mode == "mem";
@@ -107,6 +109,13 @@ CaseResult run_static(const RunCtx &ctx, TapeReader &t, unsigned size_hint) {
         return res;
     }
     pgm::verif::SegLog<K>::sink = nullptr;
+    std::vector<K> by_keys;
+    StaticProbe<K, Eps, ER, F> by_idx;
+    if (bystander) {
+        for (size_t i = 0; i < keys.size(); i += 2) by_keys.push_back(keys[i]);
+        by_idx = StaticProbe<K, Eps, ER, F>(by_keys.begin(), by_keys.end());
+        res.label("bystander_index_alive");
+    }
 
     std::vector<K> queries = gen_queries<K>(keys, meta, Eps, c01, true);
 
@@ -229,6 +238,26 @@ CaseResult run_static(const RunCtx &ctx, TapeReader &t, unsigned size_hint) {
         }
     }
     pgm::verif::route_sink = nullptr;
+    if (bystander && res.ok && !c07) {
+        size_t done = 0;
+        for (const K &q: queries) {
+            if (done++ >= 200) break;
+            pgm::ApproxPos r = by_idx.search(q);
+            ++nq;
+            if (mem) continue;
+            size_t L = size_t(std::lower_bound(by_keys.begin(), by_keys.end(), q) - by_keys.begin());
+            bool ok = r.lo <= r.hi && r.hi <= by_keys.size();
+            if (ok) ok = size_t(std::lower_bound(by_keys.begin() + r.lo, by_keys.begin() + r.hi, q) - by_keys.begin()) == L;
+            if (ok && L < by_keys.size() && by_keys[L] == q) ok = r.lo <= L && L < r.hi && r.hi - r.lo <= 2 * Eps + 2;
+            if (!ok) {
+                std::ostringstream m;
+                m << "second index over every other key (built after, alive with the first): query=" << key_str(q) << " search={pos=" << r.pos << ",lo=" << r.lo
+                  << ",hi=" << r.hi << "} lower_bound=" << L << " n=" << by_keys.size();
+                res.fail(m.str());
+                break;
+            }
+        }
+    }
     res.sum("queries", nq);
 
     if (c07 && res.ok && !mem) {
